@@ -29,7 +29,8 @@ for d in dirs:
     try:
         for p in plist:
             t0 = time.time()
-            env = dict(os.environ, POLYSIM_BUDGET=budget)
+            env = dict(os.environ)
+            if budget != "0": env["POLYSIM_BUDGET"] = budget      # 0: the real quick tier (fixed number of runs)
             out = subprocess.run([sys.executable, os.path.join(VERIF, "tools", "check.py"), p], capture_output=True, text=True, env=env, cwd=VERIF)
             v = [l for l in out.stdout.splitlines() if l.startswith("violation in")]
             hf = [l for l in out.stdout.splitlines() if l.startswith("HARNESS FAULT")]
